@@ -34,6 +34,7 @@ fn required(plan: &Plan) -> Vec<String> {
         v.push(format!("clone_from-nonempty:{}", d.label));
         v.push(format!("stack-clone:{}", d.label));
     }
+    v.push("clone_from:dst-merged".into());
     v.push("clone_from:dst-more-columns".into());
     v.push("clone_from:dst-fewer-columns".into());
     v
@@ -75,10 +76,25 @@ pub fn run<E: Entry>(ctx: &mut Ctx) {
     let mut b = Live::<E>::from_region("b", rb);
     b.issued = a.issued.clone();
     // c = unrelated contents, then clone_from
-    let mut c = Live::<E>::new("c");
     let n0 = *ctx.rng.pick(&[0usize, 1, 3, n1 + 5, 2 * n1 + 1]);
     let dom0 = Dom::new(if ctx.rng.chance(1, 2) { Kind::Long } else { Kind::Hostile });
     let pool0: Vec<E::V> = <E::V as Val>::gen_run(&mut ctx.rng, dom0, n0.max(1));
+    // the destination is a default region or itself the product of merge_regions (for coded
+    // regions: an encoded container / trained codec with another code)
+    let mut c = if (h / 6) % 2 == 1 {
+        match Live::<E>::trained("c", ctx, &pool0) {
+            Some(c) => {
+                ctx.cover("clone_from:dst-merged");
+                c
+            }
+            None => {
+                ctx.end_history();
+                return;
+            }
+        }
+    } else {
+        Live::<E>::new("c")
+    };
     for k in 0..n0 {
         if c.push(ctx, &pool0[k % pool0.len()], 0).is_none() {
             ctx.end_history();
